@@ -45,8 +45,8 @@ PROPS = {}
 
 PROPS["C15"] = {
     "level": "proof",
-    "budget": {"quick": [("c15", 3000)], "thorough": [("c15", 200000)], "search": [("c15", 400000)]},
-    "rule": "random store/retrieve sequences (1-60 ops, 1-8 distinct keys spread over u64, depths 0-5 plus 255, evals incl. i32::MIN/MAX) on the real TranspositionTable; a case is non-trivial when it contains both a store rejected by a deeper record and one that replaced/tied; distinct = distinct op traces",
+    "budget": {"quick": [("c15", 3000), ("c15s", 8)], "thorough": [("c15", 200000), ("c15s", 600)], "search": [("c15", 400000), ("c15s", 1200)]},
+    "rule": "random store/retrieve sequences (1-60 ops, 1-8 distinct keys spread over u64, depths 0-5 plus 255, evals incl. i32::MIN/MAX) on the real TranspositionTable; a case is non-trivial when it contains both a store rejected by a deeper record and one that replaced/tied; distinct = distinct op traces; and at the level of the search (c15s): several searches on one Searcher, deeper first and shallower later, on a position and its successors, the depth of the record kept for each watched position observed before and after every search and judged (never shallower, never lost), table digest compared with the model",
     "trusted_base": [KERNEL, AXIOMS, TIE, "std::collections::HashMap and Std.HashMap both behave as finite maps under get/insert (modelled, not verified)"],
     "assumptions": ["HashMap::get/insert behave as a finite map", "the model's fidelity outside the generated op sequences rests on reading the 20-line store/retrieve code"],
     "finding_key": lambda sf: None,
@@ -138,7 +138,7 @@ PROPS["C17"]["assumptions"] = ["as C01/C02"]
 
 PROPS["C05"] = {
     "level": "proof",
-    "prop_modules": ["Flounder.Props.C05", "Flounder.Props.SearchRanked"],
+    "prop_modules": ["Flounder.Props.C05", "Flounder.Props.SearchRanked", "Flounder.Props.ChessSearch"],
     "budget": {"quick": [("c05", 60), ("tie", 25)], "thorough": [("c05", 4000), ("tie", 1500)], "search": [("c05", 8000), ("tie", 3000)]},
     "rule": "positions with a measured finite quiescence tree (small-material families + play-outs, accepted only if every successor to the search depth has a quiescence tree under a node cap; reject rate printed): fresh searcher, iterative deepening to depth 1..3, score (won/lost beyond the window) and returned move compared with plain minimax Spec.V computed by the Lean spec; quiescence value vs Spec.Q; plus the strict tie of the search model: full result incl. node counts, poll counts, reuse counters and a digest of the whole transposition table after every (possibly interrupted) search, and order_moves/order_captures outputs",
     "trusted_base": SEARCH_TB + [HASHINJ],
@@ -167,6 +167,7 @@ PROPS["C07"] = {
 }
 PROPS["C08"] = {
     "level": "proof",
+    "prop_modules": ["Flounder.Props.C08", "Flounder.Props.C08Ranked", "Flounder.Props.ChessSearch", "Flounder.Props.ChessSearchExample"],
     "budget": {"quick": [("c08", 25)], "thorough": [("c08", 1500)], "search": [("c08", 3000)]},
     "rule": "generated positions containing a mate in one (play-outs + heavy-piece small positions, filtered): fresh searcher at depths 1..4, the answer judged by the executable rules (must mate); positions with both mate-allowing and safe moves at depths 2..3 (answer must be safe), incl. positions with a single safe move",
     "trusted_base": SEARCH_TB + [HASHINJ],
@@ -176,7 +177,7 @@ PROPS["C08"] = {
 }
 PROPS["C03"] = {
     "level": "proof",
-    "prop_modules": ["Flounder.Props.C03", "Flounder.Props.SearchRanked"],
+    "prop_modules": ["Flounder.Props.C03", "Flounder.Props.SearchRanked", "Flounder.Props.ChessSearch", "Flounder.Props.ChessSearchExample"],
     "budget": {"quick": [("c03", 15)], "thorough": [("c03", 1500)], "search": [("c03", 3000)]},
     "custom": [blackbox.step_transcripts, blackbox.step_timed],
     "rule": "in-process: after 0-3 earlier (possibly interrupted) searches on other positions, the position is searched with a deadline at every early poll (0 = zero budget), sampled later polls/node counts and no deadline; every answer judged by the Lean rules spec (legal; 'no move' only without legal moves); mate/stalemate positions. black-box: generated UCI scripts on the real binary, one bestmove per go, legal by the spec; real clocks (movetime 0/1/5/30, clocks around the 5 s reserve)",
@@ -205,8 +206,8 @@ PROPS["C09"] = {
 PROPS["C13"] = {
     "level": "proof",
     "budget": {"quick": [("tie", 25)], "thorough": [("tie", 1500)], "search": [("tie", 3000)]},
-    "custom": [blackbox.step_transcripts, blackbox.step_newgame],
-    "rule": "black-box: every generated script is run in 3 fresh processes of the real binary (3 independent key draws): transcripts (scores, node counts, pv, bestmove; time/nps removed) must be identical and equal to the Lean model's transcript computed under the model's own keys; prefix + ucinewgame + suffix must answer the suffix exactly like a fresh process. in-process: model vs engine under the engine's real drawn keys incl. node counts and TT digest",
+    "custom": [blackbox.step_transcripts, blackbox.step_newgame, blackbox.step_heavy_sessions],
+    "rule": "black-box: every generated script is run in 3 fresh processes of the real binary (3 independent key draws): transcripts (scores, node counts, pv, bestmove; time/nps removed) must be identical and equal to the Lean model's transcript computed under the model's own keys; prefix + ucinewgame + suffix must answer the suffix exactly like a fresh process, and a script repeated after ucinewgame must print the fresh output twice; one heavy session (three middlegame searches, ~10^5..10^6 nodes, not replayed by the model) must print the same transcript in several processes. in-process: model vs engine under the engine's real drawn keys incl. node counts and TT digest",
     "trusted_base": SEARCH_TB + [HASHINJ],
     "assumptions": [HASHINJ],
     "finding_key": lambda sf: None,
@@ -215,8 +216,9 @@ PROPS["C13"] = {
 PROPS["C16"] = {
     "level": "proof",
     "budget": {"quick": [], "thorough": [], "search": []},
-    "custom": [lambda tier, seed, ctx: blackbox.step_transcripts(tier, seed, ctx, flavours=("handshake", "noquit", "mixed"))],
-    "rule": "black-box on the real binary: generated scripts interleaving uci / isready / ucinewgame / unknown words / blank and white-space lines / mixed case / position / go depth n, ending with or without quit (lines after quit must be ignored): stdout must equal the Lean model's transcript, exit status must be 0 both on quit and at end of input (a hang is a timeout = violation)",
+    "custom": [lambda tier, seed, ctx: blackbox.step_transcripts(tier, seed, ctx, flavours=("handshake", "noquit", "mixed"),
+                                                                encodings=[("lf", "nofinal", "crlf"), ("lf", "badutf8", "nofinal"), ("lf", "crlf", "badutf8")])],
+    "rule": "black-box on the real binary: generated scripts interleaving uci / isready / ucinewgame / unknown words / blank and white-space lines / mixed case / position / go depth n, ending with or without quit (quit with trailing tokens; lines after quit must be ignored), lines with non-ASCII text (byte-order mark, accents, emoji, NUL), each script fed three times with different stdin encodings (LF, CRLF, last line unterminated, lines that are not valid UTF-8 inserted — those must be skipped silently): stdout must equal the Lean model's transcript, exit status must be 0 both on quit and at end of input (a hang is a timeout = violation)",
     "trusted_base": [KERNEL, AXIOMS, "Engine.uciLoop models stdin as a finite list of lines followed by end of input, process::exit(0)/return from main as Outcome.exited 0", "process-level facts (exit status, no hang) are observed black-box"],
     "assumptions": ["read_line returns Ok(0) at end of input (documented behaviour of std)"],
     "finding_key": lambda sf: None,
